@@ -325,6 +325,7 @@ func (c *Conn) Write(p []byte) (int, error) {
 					panic("simnet: Write would block outside a task")
 				}
 				fBackPress.Hit()
+				c.w.Note("fault", "link "+c.name+" writer blocked by the receive window")
 				d.writers = append(d.writers, t)
 				c.w.Block(t, "net.write", "conn.write:"+c.name)
 				continue
@@ -357,6 +358,7 @@ func (c *Conn) Write(p []byte) (int, error) {
 			n = int(d.cfg.CutAt - d.written)
 			d.cut = true
 			fCut.Hit()
+			c.w.Note("fault", "link "+c.name+" cut after "+itoa(d.cfg.CutAt)+" bytes of this direction")
 		}
 		if n > 0 {
 			seg := make([]byte, n)
@@ -387,6 +389,7 @@ func (c *Conn) send(d *dir, seg []byte) {
 		d.stalled = true
 		lat += d.cfg.StallFor
 		fStall.Hit()
+		c.w.Note("fault", "link "+c.name+" stalls for "+d.cfg.StallFor.String()+" at offset "+itoa(d.written))
 	}
 	now := c.w.Since()
 	at := now + lat
@@ -470,6 +473,29 @@ func (c *Conn) armDeadline(t time.Time, d *dir, read bool) {
 			d.wake(&d.writers)
 		}
 	})
+}
+
+//go:norace
+func itoa(v int64) string {
+	if v == 0 {
+		return "0"
+	}
+	neg := v < 0
+	if neg {
+		v = -v
+	}
+	var b [24]byte
+	i := len(b)
+	for v > 0 {
+		i--
+		b[i] = byte('0' + v%10)
+		v /= 10
+	}
+	if neg {
+		i--
+		b[i] = '-'
+	}
+	return string(b[i:])
 }
 
 // ---------------------------------------------------------------- dialing
